@@ -768,6 +768,10 @@ type enumLoop struct {
 	// the iteration in which the commit under test falls also captures/uploads (all 12 points occur)
 	LocalFirst  bool `json:"local_first"`
 	ReceiveOnly bool `json:"receive_only,omitempty"`
+	// NoopFirst: the preceding application commit rewrites a key with the value it already has: LMDB
+	// records a transaction, so the next merge sees "local changes", but in shadow mode its capture pass
+	// finds nothing to capture (with a no-op peer snapshot the whole merge transaction stays empty)
+	NoopFirst bool `json:"noop_first,omitempty"`
 }
 
 func (e enumLoop) toCase() LoopCase {
@@ -804,6 +808,9 @@ func (e enumLoop) toCase() LoopCase {
 	if e.LocalFirst {
 		c.Plan = append(c.Plan, SAct{Kind: "app", Changes: []SChange{{DBI: 0, Key: 5, Op: "put", Val: model.Bytes("first"), TS: 20}}})
 	}
+	if e.NoopFirst {
+		c.Plan = append(c.Plan, SAct{Kind: "app", Changes: []SChange{{DBI: 0, Key: 0, Op: "put", Val: model.Bytes("v0"), TS: 20}}})
+	}
 	c.Plan = append(c.Plan,
 		SAct{Kind: "app", At: e.Point, Changes: ch},
 		SAct{Kind: "deliver", At: "sync.before-sleep", Peer: []SPeer{{DBI: 0, Key: 4, TS: peerTS(25), Val: model.Bytes("late")}}})
@@ -813,7 +820,7 @@ func (e enumLoop) toCase() LoopCase {
 func TestC03Enum(t *testing.T) {
 	points := loopYieldPoints[:12]
 	vcore.RunEnum(t, vcore.Config{Property: "C03", Inflight: true,
-		Rule: "fault enumeration over a fixed scenario (instance starts with two keys, a peer snapshot is merged, the application commits once, a later peer snapshot is merged, loop runs until idle): EVERY yield point (12) x kind of application change {insert, overwrite, delete, new DBI, multi-key} x {native, shadow} x {peer snapshot is a no-op, or not} x {another application commit precedes so that the iteration also captures and uploads, or not} - this covers Lightning Stream write transactions that turn out empty and ones that do not; plus the same commit on a receive-only instance; C03 oracle after every yield, C09 oracle when idle; commits that match the listed known finding (transaction id reuse after an empty LS transaction) are deferred to the next yield and counted; " +
+		Rule: "fault enumeration over a fixed scenario (instance starts with two keys, a peer snapshot is merged, the application commits once, a later peer snapshot is merged, loop runs until idle): EVERY yield point (12) x kind of application change {insert, overwrite, delete, new DBI, multi-key} x {native, shadow} x {peer snapshot is a no-op, or not} x {another application commit precedes so that the iteration also captures and uploads, or not} - this covers Lightning Stream write transactions that turn out empty and ones that do not; plus the same commit after a same-value rewrite (a recorded application transaction with nothing to capture), and on a receive-only instance; C03 oracle after every yield, C09 oracle when idle; commits that match the listed known finding (transaction id reuse after an empty LS transaction) are deferred to the next yield and counted; " +
 			"non-trivial = the commit fell between two LS transactions of one loop iteration"},
 		func(yield func(enumLoop) bool) {
 			for _, native := range []bool{true, false} {
@@ -824,6 +831,12 @@ func TestC03Enum(t *testing.T) {
 								if !yield(enumLoop{Native: native, Point: p, Kind: k, PeerNoop: noop, LocalFirst: lf}) {
 									return
 								}
+							}
+						}
+						// after a commit that rewrote a key with its current value (transaction recorded, nothing to capture)
+						for _, noop := range []bool{false, true} {
+							if !yield(enumLoop{Native: native, Point: p, Kind: k, PeerNoop: noop, NoopFirst: true}) {
+								return
 							}
 						}
 						// the same commit on a receive-only instance (captures, merges, never uploads)
